@@ -352,6 +352,9 @@ func (g *G) design() {
 			for _, ut := range d.Types {
 				flattenInline(ut.Attr)
 			}
+			if g.avoid("C10-nested-collection-wrappers-share-one-validator") {
+				stripNestedCollectionValidations(d)
+			}
 			assignTags(t, d)
 			g.feat("dual-transport")
 		}
